@@ -15,6 +15,7 @@ import (
 	"os"
 	"os/exec"
 	"runtime"
+	"runtime/metrics"
 	"sort"
 	"strconv"
 	"strings"
@@ -129,6 +130,7 @@ type Result struct {
 	WallS         float64           `json:"wall_s"`
 	Notes         []string          `json:"notes,omitempty"`
 	Extra         map[string]string `json:"extra,omitempty"`
+	Suspects      []Case            `json:"suspects,omitempty"` // in flight when the process ran away with memory; re-run alone by `isolate`
 }
 
 type Component struct {
@@ -204,9 +206,57 @@ var (
 
 const maxHung = 6 // after this many hangs the remaining cases of the run are skipped
 
+// ---- memory runaway guard. A change to the code under test can make ONE call allocate without end (a loop that
+// appends while following a cyclic list); the goroutine cannot be stopped, and before the per-case watchdog expires the
+// process is out of memory and killed - the run would end without any result. A monitor samples the process's memory;
+// above the limit (env VERIF_MEM_LIMIT_GB, default 24; the largest component needs about 8) the cases in flight become
+// SUSPECTS, everything else is skipped (also the model comparison), the result is written at once, and main re-executes
+// the binary (which frees the memory) in mode `isolate`: every suspect is run alone in a child process under its own
+// limits; the ones that hang, run away or violate an oracle there are reported as violations with that case as replay.
+var (
+	runawayCh   = make(chan struct{})
+	runawayFlag int32
+	monitorOnce sync.Once
+	suspectMu   sync.Mutex
+	suspects    []Case
+)
+
+func memLimitBytes() uint64 {
+	if v, err := strconv.Atoi(os.Getenv("VERIF_MEM_LIMIT_GB")); err == nil && v > 0 {
+		return uint64(v) << 30
+	}
+	return 24 << 30
+}
+
+func startMemMonitor() {
+	monitorOnce.Do(func() {
+		limit := memLimitBytes()
+		go func() {
+			sample := []metrics.Sample{{Name: "/memory/classes/total:bytes"}, {Name: "/memory/classes/heap/released:bytes"}}
+			for {
+				time.Sleep(150 * time.Millisecond)
+				metrics.Read(sample)
+				if sample[0].Value.Kind() != metrics.KindUint64 {
+					return
+				}
+				used := sample[0].Value.Uint64()
+				if sample[1].Value.Kind() == metrics.KindUint64 && sample[1].Value.Uint64() < used {
+					used -= sample[1].Value.Uint64()
+				}
+				if used > limit {
+					if atomic.CompareAndSwapInt32(&runawayFlag, 0, 1) {
+						close(runawayCh)
+					}
+					return
+				}
+			}
+		}()
+	})
+}
+
 // safeImpl runs Impl with panic recovery and a watchdog; a panic is reported as output "panic:<kind>", a hang as "timeout".
 func safeImpl(c *Component, cs Case) (res ImplResult, panicked bool) {
-	if atomic.LoadInt64(&hungCases) >= maxHung {
+	if atomic.LoadInt64(&hungCases) >= maxHung || atomic.LoadInt32(&runawayFlag) != 0 {
 		return ImplResult{Out: "skipped-after-hangs", NoModel: true}, false
 	}
 	type outT struct {
@@ -231,6 +281,17 @@ func safeImpl(c *Component, cs Case) (res ImplResult, panicked bool) {
 			}
 		}
 		return o.res, o.panicked
+	case <-runawayCh:
+		if os.Getenv("VERIF_NO_ISOLATE") != "" { // a child of `isolate`: this case alone ran away
+			res = ImplResult{Out: "runaway", Key: "runaway", NoModel: true}
+			res.Fails = append(res.Fails, OracleFail{Property: "*", Clause: "runaway-in-" + c.Name,
+				Detail: fmt.Sprintf("the case, run alone, made the process exceed %d GB of memory (a few hundred MB on the unchanged tree)", memLimitBytes()>>30)})
+			return res, false
+		}
+		suspectMu.Lock()
+		suspects = append(suspects, cs)
+		suspectMu.Unlock()
+		return ImplResult{Out: "suspect-after-memory-runaway", NoModel: true}, false
 	case <-timer.C:
 		atomic.AddInt64(&hungCases, 1)
 		res = ImplResult{Out: "timeout", Key: "timeout", NoModel: true}
@@ -356,6 +417,7 @@ func RunComponent(c *Component, tier string, seed uint64, driver string, corpus 
 	if c.Affects != nil {
 		res.DisagreeProp = map[string]int{}
 	}
+	startMemMonitor()
 	rng := NewRNG(seed)
 	var all []Case
 	all = append(all, corpus...)
@@ -403,6 +465,12 @@ func RunComponent(c *Component, tier string, seed uint64, driver string, corpus 
 	}
 	res.Extra["max_case_ms"] = strconv.FormatInt(atomic.LoadInt64(&maxCaseNano)/1e6, 10)
 	res.Extra["hung_cases"] = strconv.FormatInt(atomic.LoadInt64(&hungCases), 10)
+	suspectMu.Lock()
+	res.Suspects = append(res.Suspects, suspects...)
+	suspectMu.Unlock()
+	if len(res.Suspects) > 0 {
+		res.Notes = append(res.Notes, fmt.Sprintf("memory runaway: the process exceeded %d GB; %d cases in flight are re-run alone, the cases after them were skipped", memLimitBytes()>>30, len(res.Suspects)))
+	}
 	res.WallS = time.Since(t0).Seconds()
 	return res
 }
@@ -431,11 +499,12 @@ func evalChunk(c *Component, cases []Case, driver string, res *Result, distinct 
 	close(idx)
 	wg.Wait()
 
-	// model
+	// model (skipped after a memory runaway: the result must be written before the process is killed)
+	ranAway := atomic.LoadInt32(&runawayFlag) != 0
 	var lines []string
 	var lineIdx []int
 	for i, cs := range cases {
-		if impl[i].NoModel || noModel {
+		if impl[i].NoModel || noModel || ranAway {
 			continue
 		}
 		if impl[i].ModelLine != "" {
@@ -448,7 +517,7 @@ func evalChunk(c *Component, cases []Case, driver string, res *Result, distinct 
 	nMain := len(lines)
 	type chkRef struct{ i, k int }
 	var chkIdx []chkRef
-	if !noModel {
+	if !noModel && !ranAway {
 		for i := range cases {
 			for k, ch := range impl[i].Checks {
 				lines = append(lines, ch.Line)
